@@ -152,6 +152,14 @@ func genC07(t *rapid.T) *LCase {
 	// rarely: the programme runs while a queue-overflow error waits to be
 	// taken from Errors (nobody, or only an Events reader, is there)
 	genOverflow(t, c)
+	if c.Overflow == 0 && engine.Pct(t, "liststorm", 12) {
+		// goroutines that only ask for the list (they change nothing, so the
+		// recorded history stays checkable) keep the lock contended while the
+		// programme - which then contains a Close - runs; afterwards one more
+		// Close must return
+		c.Storm = rapid.IntRange(2, 6).Draw(t, "liststorm-n")
+		c.Calls = append(c.Calls, Call{G: 0, K: "close"})
+	}
 	return c
 }
 
@@ -266,6 +274,30 @@ func runC07(c *LCase) (viol string, overlaps int, feats []string) {
 					mu.Unlock()
 				}
 			})
+		}()
+	}
+	stormDone := make(chan string, c.Storm+1)
+	for g := 0; g < c.Storm; g++ {
+		go func() {
+			<-start
+			stormDone <- guarded("storm goroutine (WatchList loop)", func() { stormBody(w.W, 0) })
+		}()
+	}
+	if c.Storm > 0 {
+		feats = append(feats, "list-storm")
+		defer func() {
+			if viol != "" {
+				return
+			}
+			for g := 0; g < c.Storm; g++ {
+				if p := <-stormDone; p != "" {
+					viol = "deadlock: " + p
+					return
+				}
+			}
+			if p := guarded("Close() after the programme", func() { w.W.Close() }); p != "" {
+				viol = "deadlock: " + p
+			}
 		}()
 	}
 	go func() { cwg.Wait(); close(done) }()
